@@ -2,6 +2,7 @@ package props
 
 import (
 	"fmt"
+	"go/types"
 	"strings"
 
 	"golang.org/x/tools/go/ssa"
@@ -124,7 +125,11 @@ func (h H) commitBeforeStructureChange(rule string) {
 		h.C.Check(rule+" rollover-name", site, h.argStr(c, 1) == "(*log.Log).LastIndex(Log)", h.pos(c), "the new segment must be named after the last index; found "+h.argStr(c, 1))
 	}
 	h.C.Floor(rule+" (openSegment in Append)", len(h.P.CallsTo(ap, openSeg)), 1)
-	for _, spec := range []string{"log:(*Log).RemoveLTE", "log:(*Log).RemoveGTE"} {
+	for _, w := range []struct{ spec, link string }{
+		{"log:(*Log).RemoveLTE", "prev"}, // the new first segment must forget its predecessor
+		{"log:(*Log).RemoveGTE", "next"}, // the new last segment must forget its successor
+	} {
+		spec := w.spec
 		fn := h.fn(spec)
 		fi := h.P.Info(fn)
 		car := h.fn("log:(*segment).closeAndRemove")
@@ -241,6 +246,24 @@ func (h H) openHandlesEveryFile(rule string) {
 		h.C.Check(rule+" exit-only-on-error", fmt.Sprintf("log.openSegments in-loop return#%d", k+1), res.OK, h.pos(ret), "the loop over segment files is left although no error occurred (remaining files are neither connected nor removed): "+res.Witness)
 	}
 	h.C.Floor(rule+" (in-loop returns)", n, 1)
+	// the same for every other way out of the loop (break, goto): only the
+	// exhausted range or a non-nil error ends it
+	isErr := func(a core.Atom) bool { return a.Op == "!=" && a.R == "nil" }
+	for k, ex := range fi.LoopExits(hd) {
+		if ex.From == hd || ex.To == nil {
+			continue
+		}
+		ok := ex.Has && isErr(ex.Atom)
+		var wit string
+		if !ok {
+			res := fi.MustCrossInLoop(hd, ex.From.Instrs[len(ex.From.Instrs)-1], isErr)
+			ok, wit = res.OK, res.Witness
+			if ex.Has {
+				wit += " ; [" + ex.Atom.String() + "]"
+			}
+		}
+		h.C.Check(rule+" exit-only-on-error", fmt.Sprintf("log.openSegments loop-exit#%d", k+1), ok, h.pos(ex.From.Instrs[len(ex.From.Instrs)-1]), "the loop over segment files is left although no error occurred (remaining files are neither connected nor removed): "+wit)
+	}
 	// a connected segment continues the chain: off == last.lastIndex() && last.n > 0
 	os := h.fn("log:openSegment")
 	for k, c := range h.P.CallsTo(fn, os) {
@@ -542,4 +565,66 @@ func (h H) observers(rule string) {
 		h.C.Check(rule+" Contains-complete", fmt.Sprintf("(*log.Log).Contains false-path#%d", n), c1 || c2, h.fpos(cf), "Contains(i) can answer false for PrevIndex < i <= LastIndex")
 	}
 	h.C.Floor(rule+" (false paths of Contains)", n, 2)
+}
+
+// unlinkBeforeRemove (C13.7 / C14.7): Log.RemoveLTE and Log.RemoveGTE drop a
+// segment at one end of the chain and keep the rest. In the iteration that
+// closes and deletes a segment, the neighbour that stays must first be
+// unlinked from it (disconnect, or its next/prev set to nil), unless there is
+// no neighbour. A stale link is followed later by Reset, Close and the
+// chain walks: a second close/unmap of a deleted segment.
+func (h H) unlinkBeforeRemove(rule string) {
+	car := h.fn("log:(*segment).closeAndRemove")
+	disc := h.fn("log:disconnect")
+	n := 0
+	for _, w := range []struct{ spec, link string }{
+		{"log:(*Log).RemoveLTE", "prev"}, // the new first segment must forget its predecessor
+		{"log:(*Log).RemoveGTE", "next"}, // the new last segment must forget its successor
+	} {
+		spec := w.spec
+		fn := h.fn(spec)
+		fi := h.P.Info(fn)
+		hds := core.LoopHeaders(fn)
+		for k, c := range h.P.CallsTo(fn, car) {
+			in := c.(ssa.Instruction)
+			var hd *ssa.BasicBlock
+			for _, x := range hds {
+				if x == in.Block() || core.InLoop(x, in.Block()) {
+					hd = x
+				}
+			}
+			site := h.site(fn, car, k)
+			if !h.C.Check(rule+" in-loop", site, hd != nil, h.pos(in), "segment removal outside the removal loop") {
+				continue
+			}
+			n++
+			hit := func(x ssa.Instruction) bool {
+				if h.P.IsCallTo(x, disc) {
+					return true
+				}
+				if st, ok := x.(*ssa.Store); ok && isNilConst(st.Val) {
+					if fa, ok := st.Addr.(*ssa.FieldAddr); ok {
+						return fieldName(fa) == w.link
+					}
+				}
+				return false
+			}
+			res := fi.MustCrossOrPassInLoop(hd, in, func(a core.Atom) bool {
+				return a.Op == "==" && (a.R == "nil" && strings.HasPrefix(a.L, "Log.") || a.L == "nil" && strings.HasPrefix(a.R, "Log."))
+			}, hit)
+			h.C.Check(rule+" unlinked-first", site, res.OK, h.pos(in), "a segment is closed and deleted while the segment that stays still links to it: "+res.Witness)
+		}
+	}
+	h.C.Floor(rule+" (segment removals in RemoveLTE/RemoveGTE)", n, 2)
+}
+
+func fieldName(fa *ssa.FieldAddr) string {
+	t := fa.X.Type().Underlying()
+	if p, ok := t.(*types.Pointer); ok {
+		t = p.Elem().Underlying()
+	}
+	if st, ok := t.(*types.Struct); ok && fa.Field < st.NumFields() {
+		return st.Field(fa.Field).Name()
+	}
+	return ""
 }
